@@ -130,7 +130,7 @@ static void run_rounds(uint64_t idx, pv_rng* rng) {
       pv_wrap_time_scripted = kind != 0; pv_wrap_time_value = (time_t)(PV_EPOCH + 321 * PV_STEP + 12345); }
     static const char* const KN[3] = { "all-entries-injected", "time-NULL(libc-clock)", "time+alloc+free-NULL(libc)" };
     pv_countf(1, "rounds.table.%s", KN[kind]);
-    int nops = (int)pv_scaled(4000, 20000); if (nt == 16) nops = nops * 2 / 3;
+    int nops = (int)pv_scaled(4000, 80000); if (nt == 16) nops = nops * 2 / 3;
     static tctx solo[MAXT], conc[MAXT];
     pv_world* mainw = pv_w;
     uint64_t base = pv_rand64(rng);
